@@ -1043,7 +1043,8 @@ def run_chinese(chk, idx, W, cfg):
             pass
         except Undetermined as e:
             raise AnalysisError('%s.parse: TIMEX/value assembly cannot be interpreted: %s' % (zp.name, e))
-        tx, val = getattr(rec, 'timex', None), getattr(rec, 'future_value', None)
+        final = env.get('inner_result') if isinstance(env.get('inner_result'), Obj) else rec      # the record may be built inside the slice
+        tx, val = getattr(final, 'timex', None), getattr(final, 'future_value', None)
         want_tx = 'P%s3%s' % ('T' if L in ('H', 'M', 'S') else '', L[0])
         chk.judge(tx == want_tx and val == 3 * SEC[L], 'C10.seconds', zp.mod.path, "%s.parse[unit code %r]" % (zp.name, letter),
                   '3 x %s -> %s / %s' % (letter, tx, val),
